@@ -12,6 +12,8 @@ import (
 
 	"github.com/carapace-sh/carapace"
 	"github.com/carapace-sh/carapace/pkg/cache/key"
+	"verif/harness/sitea"
+	"verif/harness/siteb"
 )
 
 // ---- op "cache": histories of a cached Action against a private cache directory (C14)
@@ -48,7 +50,8 @@ func cacheSite2(a carapace.Action, t time.Duration, keys ...key.Key) (carapace.A
 	return a, f, l
 }
 
-var cacheSites = []func(carapace.Action, time.Duration, ...key.Key) (carapace.Action, string, int){cacheSite0, cacheSite1, cacheSite2}
+// sites 3 and 4: files with the same base name, the call on the same line, in different directories
+var cacheSites = []func(carapace.Action, time.Duration, ...key.Key) (carapace.Action, string, int){cacheSite0, cacheSite1, cacheSite2, sitea.Site, siteb.Site}
 
 func keyFuncs(cur *[][]string, n int) []key.Key {
 	ks := make([]key.Key, n)
@@ -106,7 +109,7 @@ func runCache(raw json.RawMessage) interface{} {
 				}
 				return v
 			})
-			cached, _, _ := cacheSites[op.Site%3](a, time.Duration(op.Timeout)*time.Second, keyFuncs(&cur, n)...)
+			cached, _, _ := cacheSites[op.Site%len(cacheSites)](a, time.Duration(op.Timeout)*time.Second, keyFuncs(&cur, n)...)
 			res := invokeSafe(cached, carapace.Context{})
 			if res.Panic != "" {
 				o["panic"] = res.Panic
@@ -129,7 +132,7 @@ func runCache(raw json.RawMessage) interface{} {
 				return nil
 			})
 		case "corrupt":
-			_, f, l := cacheSites[op.Site%3](carapace.ActionValues(), 0)
+			_, f, l := cacheSites[op.Site%len(cacheSites)](carapace.ActionValues(), 0)
 			file, err := carapace.VerifCacheFile(f, l, staticKeys(op.KB)...)
 			if err == nil {
 				if st, serr := os.Lstat(file); serr == nil {
@@ -195,7 +198,13 @@ func genCache(r *rng, tier string) interface{} {
 		// tuples of the same length whose key texts concatenate to the same string
 		tuples = [][][]string{{{"ab"}, {"c"}}, {{"a"}, {"bc"}}, {{"abc"}, {""}}}
 	}
-	timeouts := []int{10, 100, -1, 1000}
+	timeouts := []int{10, 100, -1, 1000, 0}
+	site := func() int {
+		if r.chance(25) {
+			return 3 + r.intn(2)
+		}
+		return r.intn(3)
+	}
 	in.Const = r.chance(20)
 	nops := 3 + r.intn(12)
 	for i := 0; i < nops; i++ {
@@ -209,7 +218,7 @@ func genCache(r *rng, tier string) interface{} {
 					ka = cand
 				}
 			}
-			in.Ops = append(in.Ops, cacheOp{K: "invoke", Site: r.intn(3), KB: kb, KA: ka, Timeout: pick(r, timeouts), Msg: r.chance(15)})
+			in.Ops = append(in.Ops, cacheOp{K: "invoke", Site: site(), KB: kb, KA: ka, Timeout: pick(r, timeouts), Msg: r.chance(15)})
 		case k < 16:
 			in.Ops = append(in.Ops, cacheOp{K: "advance", Dt: pick(r, []int{3, 5, 15, 50, 95, 105, 1000})})
 		case k < 18:
@@ -220,7 +229,7 @@ func genCache(r *rng, tier string) interface{} {
 			if r.intn(25) == 0 {
 				kind = "dir"
 			}
-			in.Ops = append(in.Ops, cacheOp{K: "corrupt", Site: r.intn(3), KB: pick(r, tuples), Kind: kind})
+			in.Ops = append(in.Ops, cacheOp{K: "corrupt", Site: site(), KB: pick(r, tuples), Kind: kind})
 		default:
 			in.Ops = append(in.Ops, cacheOp{K: "foreign"})
 		}
